@@ -401,6 +401,17 @@ func main() {
 			}
 		}
 	}
+	// very small and very large drawings: nothing in the renderers may depend on an absolute length
+	for _, k := range []float64{1e-6, 1e-8, 1e6} {
+		for _, n := range []int{8, 20, 50} {
+			for _, r := range renderers {
+				k := k
+				ct := v2.Vec{X: 0.07 * k, Y: -0.05 * k}
+				ajobs = append(ajobs, ajob{fmt.Sprintf("circle R=%g centre %v", k, ct), func(p v2.Vec) float64 { return p.Sub(ct).Length() - k }, sq(2.5*k, 2.5*k), n, r,
+					func(h float64) float64 { return h * h / (8 * (k - h)) * (1 + 1e-6) }, "circle"})
+			}
+		}
+	}
 	bx := sdf.Box2D(v2.Vec{X: 2, Y: 1}, 0)
 	rbx := sdf.Transform2D(sdf.Box2D(v2.Vec{X: 2, Y: 1}, 0.2), sdf.Rotate2d(sdf.DtoR(30)))
 	for _, s := range []struct {
@@ -412,6 +423,16 @@ func main() {
 			for _, r := range renderers {
 				ajobs = append(ajobs, ajob{s.name, s.s.Evaluate, s.bb, n, r, func(h float64) float64 { return h * (1 + 1e-9) }, "solid"})
 			}
+		}
+	}
+	// long thin parts in their own tight boxes at high cell counts
+	for _, e := range []struct {
+		w, h float64
+		n    int
+	}{{10, 1, 200}, {10, 2, 200}, {1, 10, 200}, {10, 3, 300}, {10, 8, 200}, {7, 0.5, 150}} {
+		b := sdf.Box2D(v2.Vec{X: e.w, Y: e.h}, 0)
+		for _, r := range renderers {
+			ajobs = append(ajobs, ajob{fmt.Sprintf("box %gx%g in its own tight box", e.w, e.h), b.Evaluate, b.BoundingBox(), e.n, r, func(h float64) float64 { return h * (1 + 1e-9) }, "solid"})
 		}
 	}
 	states += c.ParFor(len(ajobs), func(i int) {
